@@ -92,6 +92,7 @@ func plyCaseWith(kind string, desc interface{}, d plyDesc, m modeling.Mesh) hx.C
 	}
 	var buf bytes.Buffer
 	var werr error
+	inDigest := meshDigest(m)
 	func() {
 		defer func() {
 			if rec := recover(); rec != nil {
@@ -103,6 +104,13 @@ func plyCaseWith(kind string, desc interface{}, d plyDesc, m modeling.Mesh) hx.C
 	out := buf.Bytes()
 	if werr != nil {
 		c.GoFail, c.FailKey = "SplatPly.Write failed: "+werr.Error(), "splatply:write-error"
+	} else {
+		var again bytes.Buffer
+		if meshDigest(m) != inDigest {
+			c.GoFail, c.FailKey = "SplatPly.Write changed the mesh it was given", "splatply:write-side"
+		} else if err := guard(func() { (ply.SplatPly{Mesh: m}).Write(&again) }); err != nil || !bytes.Equal(again.Bytes(), out) {
+			c.GoFail, c.FailKey = "a second SplatPly.Write of the same mesh produced different bytes", "splatply:write-side"
+		}
 	}
 	// header: property names of the vertex element, in order; body = everything after end_header
 	var props []string
@@ -162,6 +170,9 @@ func plyCaseWith(kind string, desc interface{}, d plyDesc, m modeling.Mesh) hx.C
 		rm := *r.m
 		if f := shapeCheck("ply.ReadMesh", out, true, meshDigest(rm), ply.ReadMesh); f != "" && c.GoFail == "" {
 			c.GoFail, c.FailKey = f, "splatply:reader-shape"
+		}
+		if f := retainCheck("ply.ReadMesh", rm, meshDigest(rm)); f != "" && c.GoFail == "" {
+			c.GoFail, c.FailKey = f, "splatply:retained-result"
 		}
 		chk := func(x float64) {
 			if finite(x) && float64(float32(x)) != x && c.GoFail == "" {
@@ -262,6 +273,10 @@ func genPly(r *hx.Rng, run *hx.Run) plyDesc {
 
 func plyFixed(run *hx.Run) {
 	r := hx.NewRng(99)
+	// the first SplatPly.Write of the process sees a position-only cloud, the second a degree-0 cloud, then all 62
+	// properties: anything the writer keeps between calls would show
+	run.Add(plyCase(plyDesc{N: 2, Attrs: map[string][][]float64{modeling.PositionAttribute: {{1, 2, 3}, {-4, 5.5, 0.1}}}}))
+	run.Add(plyCase(genPlyDesc(r, 2, true, 0)))
 	run.Add(plyCase(genPlyDesc(r, 2, true, 45))) // all 62 properties
 	run.Add(plyCase(genPlyDesc(r, 1, true, 0)))
 	run.Add(plyCase(plyDesc{N: 0, Attrs: map[string][][]float64{}}))
